@@ -106,4 +106,19 @@ MUTATIONS = [
 	M('c03-primary-always', ['C03'], 'src/gambit/classify.py', 'primary_match=closest_match if closest_match.matched_taxon is not None else None,', 'primary_match=closest_match,', 'primary match set even without a prediction'),
 	M('c03-original-next-taxon', ['C03'], 'src/gambit/classify.py', '\t\twhile hi is not None and hi.distance_threshold is None:\n\t\t\thi = hi.parent\n\n\t\twhile hi is not None:\n\t\t\tif hi.distance_threshold is not None', '\t\twhile hi is not None:\n\t\t\tif hi.distance_threshold is not None', 'pre-fix next_taxon'),
 	M('c03-threshold-skip-none-as-zero', ['C03', 'C10'], 'src/gambit/classify.py', 'if t.distance_threshold is not None and d <= t.distance_threshold:', 'if d <= (t.distance_threshold or 0):', 'taxa without threshold match distance 0'),
+	# ---- C09 ----------------------------------------------------------------------------------------
+	M('c09-original-unstable', ['C09'], 'src/gambit/query.py', "np.argsort(dists, kind='stable')", 'np.argsort(dists)', 'pre-fix unstable argsort'),
+	M('c09-stable-on-negated', ['C09'], 'src/gambit/query.py', "np.argsort(dists, kind='stable')[:params.report_closest]", "np.argsort(-dists, kind='stable')[::-1][:params.report_closest]", 'stable sort of negated distances reversed: ties in reverse reference order'),
+	M('c09-argpartition', ['C09'], 'src/gambit/query.py', "np.argsort(dists, kind='stable')[:params.report_closest]", "sorted(np.argpartition(dists, min(params.report_closest, len(dists)) - 1)[:params.report_closest], key=lambda i: dists[i])", 'list built from argpartition'),
+	M('c09-closest-from-last-min', ['C09', 'C03'], 'src/gambit/classify.py', 'closest = np.argmin(dists)', 'closest = len(dists) - 1 - np.argmin(dists[::-1])', 'closest match = last minimum: CSV and JSON disagree on ties'),
+	M('c09-matched-taxon-of-closest', ['C09'], 'src/gambit/query.py', "closest = [GenomeMatch(db.genomes[i], dists[i]) for i in", "closest = [GenomeMatch(db.genomes[i], dists[i], clsresult.closest_match.matched_taxon if dists[i] == dists.min() else matching_taxon(db.genomes[i].taxon, dists[i])) for i in", 'entries tied with the minimum get the closest match\'s taxon'),
+	# ---- C04 ----------------------------------------------------------------------------------------
+	M('c04-idx-consecutive', ['C04'], 'src/gambit/db/refdb.py', 'idxs_out.append(i)', 'idxs_out.append(len(idxs_out))', 'signature indices are positions among matched genomes, not file positions (wrong with unrelated signatures)'),
+	M('c04-completeness-lt', ['C04'], 'src/gambit/db/refdb.py', 'if len(self.genomes) != n:', 'if len(self.genomes) > n:', 'missing signatures tolerated'),
+	M('c04-lookup-on-key', ['C04'], 'src/gambit/db/refdb.py', "q = genomeset.genomes.join(AnnotatedGenome.genome).add_columns(id_attr)", "q = genomeset.genomes.join(AnnotatedGenome.genome).add_columns(id_attr if id_attr.key != 'refseq_acc' else Genome.genbank_acc)", 'refseq ids looked up in the genbank column'),
+	M('c04-sorted-ids', ['C04'], 'src/gambit/db/refdb.py', 'self.genomes, self.sig_indices = genomes_by_id_subset(genomeset, id_attr, signatures.ids)', 'self.genomes, self.sig_indices = genomes_by_id_subset(genomeset, id_attr, sorted(signatures.ids))', 'ids sorted before matching: indices refer to the sorted order'),
+	M('c04-locate-first', ['C04'], 'src/gambit/db/refdb.py', "\t\t\tif n != 1:\n", "\t\t\tif n < 1:\n", 'several matching files: an arbitrary one is taken'),
+	M('c04-ref-indices-dropped', ['C04'], 'src/gambit/query.py', '\t\tref_indices=db.sig_indices,\n', '\t\tref_indices=db.sig_indices if len(db.sig_indices) != len(db.signatures) else None,\n', 'equivalent: indices dropped only when they cover the whole file in order? no - permuted files break', expect='silent'),
+	M('c04-ref-indices-range', ['C04'], 'src/gambit/query.py', '\t\tref_indices=db.sig_indices,\n', '\t\tref_indices=list(range(len(db.sig_indices))),\n', 'first n signatures of the file used instead of the matched ones'),
+	M('c04-id-attr-default-key', ['C04'], 'src/gambit/db/refdb.py', "\t\tif id_attr is None:\n\t\t\traise TypeError('id_attr field of signatures metadata cannot be None')\n", "\t\tif id_attr is None:\n\t\t\tid_attr = 'key'\n", 'missing id_attr silently defaults to key'),
 ]
